@@ -48,6 +48,8 @@ def _finish(env, violation, outcome):
     errs = [(t.name, type(t.exc).__name__, str(t.exc)[:80])
             for t in env.sched.threads if t.exc is not None]
     if errs:
+        if isinstance(violation, tuple):
+            violation = violation[0]
         violation = 'exception inside billiard code: %r%s' % (
             errs, ('; ' + violation) if violation else '')
     if st in ('step-horizon', 'time-horizon') and not violation:
@@ -177,6 +179,46 @@ def _run_overrelease(cfg, prefix):
                 break
         env.sched.status = 'done'
         return _finish(env, v, ('seq', tuple(obs)))
+
+
+def _run_relrace(cfg, prefix):
+    """Releases of a bounded semaphore / lock from several *processes*
+    with the extension's two-step release (bound test, then post) modelled
+    as two steps.  Oracle: the value never exceeds the bound and exactly
+    min(releases, bound - start) releases are accepted."""
+    env = Env(prefix, timer_deviation=False)
+    with vos.fresh(env.sched) as world:
+        world.split_release = True
+        typ, n, start, k = cfg['type'], cfg['n'], cfg['start'], cfg['procs']
+        lock = CTX.Lock() if typ == 'Lock' else CTX.BoundedSemaphore(n)
+        bound = 1 if typ == 'Lock' else n
+        for _ in range(bound - start):
+            lock.acquire()
+        res = {}
+
+        def body(i, lk):
+            def run():
+                try:
+                    lk.release()
+                    res[i] = 'ok'
+                except ValueError:
+                    res[i] = 'refused'
+            return run
+        for i in range(k):
+            env.spawn(body(i, env.copy_for(lock, False)), 'P%d' % i, False)
+        env.sched.run()
+        val = lock._semlock._get_value()
+        acc = sorted(res.values()).count('ok')
+        v = None
+        if env.sched.status != 'done':
+            v = 'did not finish: %s' % env.sched.status
+        elif val > bound or acc != min(k, bound - start):
+            v = ('%s(%d) at value %d: %d processes released at once, %d '
+                 'releases were accepted and the value is now %d (bound %d):'
+                 ' over-release not refused' % (typ, bound, start, k, acc,
+                                                val, bound),
+                 'F36:bounded-release-test-and-post-not-atomic')
+        return _finish(env, v, ('relrace', acc, val))
 
 
 # ---- (b) Condition ----------------------------------------------------------
@@ -529,6 +571,13 @@ def configs(tier):
             for seq in itertools.product(ops, repeat=d):
                 out.append((dict(kind='overrelease', type=typ, n=n,
                                  seq=list(seq)), 0, None))
+    # (a) concurrent releases near the bound, from different processes
+    for typ, n, start in (('BoundedSemaphore', 2, 1), ('BoundedSemaphore', 2, 0),
+                          ('BoundedSemaphore', 1, 0), ('Lock', 1, 0),
+                          ('BoundedSemaphore', 2, 2)):
+        for k in (2, 3):
+            out.append((dict(kind='relrace', type=typ, n=n, start=start,
+                             procs=k), 2, None))
     # (b) Condition
     TO = 1.0
     wsets = [[None], [TO], [None, None], [None, TO], [TO, TO]]
@@ -580,8 +629,12 @@ def main(tier, seed):
         st.__dict__.setdefault('configs', 0)
         st.configs += 1
         for ch, msg in d['violations']:
+            sig = None
+            if isinstance(msg, (tuple, list)):
+                msg, sig = msg
             rep.violation('%s\nconfig=%r' % (msg, cfg),
-                          dict(harness='c17', config=cfg, choices=ch))
+                          dict(harness='c17', config=cfg, choices=ch),
+                          signature=sig)
     for kind in sorted(by_kind):
         st = by_kind[kind]
         rep.stats(kind, st, configs=st.configs)
